@@ -22,8 +22,8 @@ RULE = ("baseline dilation scenarios (dilate at a random point, subchannel traff
         "connection, no timer. Non-trivial = close was issued while a Manager existed; distinct = "
         "(Manager state, Connector state, closer, role, scenario) at the moment of close.")
 ASSUMPTIONS = ["Noise stand-in", "bounded progress: 300 virtual seconds after close()"]
-FLOORS = {"quick": {"closes_with_manager": 500, "old_peer_cases": 40, "closes_after_bulk_write": 40},
-          "thorough": {"closes_with_manager": 20000, "old_peer_cases": 1500, "closes_after_bulk_write": 2000}}
+FLOORS = {"quick": {"closes_with_manager": 500, "old_peer_cases": 40, "closes_after_bulk_write": 40, "closes_with_peer_paused": 15},
+          "thorough": {"closes_with_manager": 20000, "old_peer_cases": 1500, "closes_after_bulk_write": 2000, "closes_with_peer_paused": 400}}
 
 
 def cases(tier, seed, prep=None):
@@ -48,6 +48,10 @@ def cases(tier, seed, prep=None):
     for i in range(40 if q else 1200):
         out.append({"kind": "sweep", "seed": b + 200 + i, "close_at": 420 + (i * 7) % 200, "who": "follower", "stranger": False, "dead_addr": False,
                     "bulk": [100000, 300000, 1000000, 3000000][i % 4], "pre_abandon": 150 + (i * 13) % 120})
+    # ... and while the peer's application has paused reading (its kernel window is closed: nothing more can be flushed)
+    for i in range(24 if q else 600):
+        out.append({"kind": "sweep", "seed": b + 400 + i, "close_at": 300 + (i * 7) % 200, "who": "AB"[i % 2], "stranger": False, "dead_addr": False,
+                    "bulk": [1000000, 3000000][i % 2], "peer_paused": True})
     for i in range(60 if q else 2000):
         out.append({"kind": "oldpeer", "seed": b + 5000 + i})
     foreign = [{}, {"app_versions": {}}, {"abilities": []}, {"can-dilate": []}, {"can-dilate": ["x"]}, {"app_versions": {"k": 1}, "can-dilate": ["2", "x"]}]
@@ -192,10 +196,19 @@ def run_case(spec):
         closing.add(who)
         if spec.get("bulk"):
             live = [p for p in drv.protos(who) if drv.is_open(p)]
+            if live and spec.get("peer_paused"):
+                oth = "B" if who == "A" else "A"
+                for q_ in drv.protos(oth):
+                    if drv.is_open(q_):
+                        q_.transport.pauseProducing()
+                        info["peer_paused"] = info.get("peer_paused", 0) + 1
             if live:
                 info["bulk_written"] = spec["bulk"]
                 drv.write(live[0], b"bulk:" + rng.randbytes(spec["bulk"]))
         dp.apps[who].close()
+        c_ = getattr(m, "_connection", None) if m is not None else None
+        t_ = getattr(c_, "transport", None)
+        info["unsent_at_close"] = len(getattr(t_, "outbuf", b"")) if t_ is not None else 0
     sch.faults.append((spec["close_at"], do_close, "close " + who))
     sch.faults.sort(key=lambda f: f[0])
     if spec.get("close_in_state"):
@@ -224,7 +237,11 @@ def run_case(spec):
         if extra:
             w.update(extra)
         return w
-    if not app.closed:
+    if not app.closed and info.get("peer_paused") and info.get("bulk_written") and info.get("unsent_at_close") and info.get("manager_state") == "CONNECTED":
+        viol.append({"key": "C17/close-never-completes/unsent-data-and-peer-application-paused-reading",
+                     "msg": "%s: close() while CONNECTED with %d bytes still unsent and the peer's application not reading did not complete within 300 virtual s (Manager now %s)" % (
+                         who, info["unsent_at_close"], dp.mstate(who)), "witness": wit()})
+    elif not app.closed:
         viol.append({"key": "C17/close-never-completes/manager=%s,connector=%s" % (info.get("manager_state"), info.get("connector_state")),
                      "msg": "%s: close() issued with Manager %s / Connector %s did not complete within 300 virtual s (Manager now %s)" % (
                          who, info.get("manager_state"), info.get("connector_state"), dp.mstate(who)), "witness": wit()})
@@ -266,7 +283,7 @@ def run_case(spec):
     had_manager = info.get("manager_state") is not None
     nontrivial = [info.get("manager_state"), info.get("connector_state"), who, info.get("role"), bool(spec.get("stranger")), spec["seed"]] if had_manager else None
     return {"violations": viol, "nontrivial": nontrivial,
-            "counters": {"closes_with_manager": int(had_manager), "closes_after_bulk_write": int(bool(info.get("bulk_written"))), "closed": int(app.closed), "stranger_connected": int(stranger["proto"] is not None),
+            "counters": {"closes_with_manager": int(had_manager), "closes_after_bulk_write": int(bool(info.get("bulk_written"))), "closes_with_peer_paused": int(bool(info.get("peer_paused") and info.get("bulk_written"))), "closed": int(app.closed), "stranger_connected": int(stranger["proto"] is not None),
                          "notrans_seen": len(MON.notrans)},
             "sets": {"states_at_close": ["%s/%s" % (info.get("manager_state"), info.get("connector_state"))],
                      "dilation_notrans": ["%s.%s/%s" % k for k in set(MON.notrans)],
